@@ -9,6 +9,8 @@ package server
 import (
 	"context"
 	"fmt"
+	"google.golang.org/grpc/codes"
+	"google.golang.org/grpc/status"
 	"net"
 	"sync"
 	"testing"
@@ -107,6 +109,18 @@ func TestVerifReplayHandlers(t *testing.T) {
 		vrsCall("(*server.Server).TransactionSet", in+",intents", counts, func() {
 			vrsServer().TransactionSet(ctx, &sdcpb.TransactionSetRequest{DatastoreName: name, Intents: []*sdcpb.TransactionIntent{{Intent: "i"}}, ReplaceIntent: &sdcpb.TransactionIntent{}})
 		})
+		// the names under which the tree keeps the device's values, the defaults and the replace content are refused
+		// before the datastore is touched (the registered datastore is an empty one: reaching into it would crash)
+		for _, reserved := range []string{"running", "default", "replace"} {
+			vrsCall("(*server.Server).TransactionSet", in+",intent named "+reserved, counts, func() {
+				srv := vrsServer()
+				srv.datastores[name] = &datastore.Datastore{}
+				_, err := srv.TransactionSet(ctx, &sdcpb.TransactionSetRequest{DatastoreName: name, TransactionId: "t", Intents: []*sdcpb.TransactionIntent{{Intent: reserved, Priority: 10}}})
+				if name != "" && status.Code(err) != codes.InvalidArgument {
+					fmt.Printf("REPLAY-FAIL fn=%s clause=reserved_intent_names_are_refused input=%s,intent named %s why=answered %v\n", "(*server.Server).TransactionSet", in, reserved, err)
+				}
+			})
+		}
 		vrsCall("(*server.Server).TransactionConfirm", in, counts, func() { vrsServer().TransactionConfirm(ctx, &sdcpb.TransactionConfirmRequest{DatastoreName: name}) })
 		vrsCall("(*server.Server).TransactionCancel", in, counts, func() { vrsServer().TransactionCancel(ctx, &sdcpb.TransactionCancelRequest{DatastoreName: name}) })
 	}
